@@ -233,10 +233,12 @@ def s10(cx):
         cx.check(f"headers = {hdr} + list(extra_headers)" in src, f, construct=f"headers = {hdr} + list(extra_headers)", detail="typedefs precede every class API", bad_detail="target header is not placed first", sub="first")
         tgt = "cuda" if "cupy" in spec else "opencl"
         cx.check(f"specialize_for='{tgt}'" in src, f, construct=f"specialize_source(..., specialize_for='{tgt}')", detail="context specialises for its own target", bad_detail="context specialises for another target", sub="target")
-    # ---- one predicate decides "this is an OpenMP context" at every site that depends on it: the specialisation target
-    # (cpu_openmp vs cpu_serial: which //only_for_context lines and which include files are active), the omp.h header,
-    # the -fopenmp flags and the omp_set_num_threads call.  A context for which the sites disagree runs code
-    # specialised for the other CPU target (seeded C16-b selected the target by the thread count).
+
+
+def _omp_sites(cx):
+    """sites that depend on "this is an OpenMP context", each with the guards it sits under (texts canonicalised: the
+    property `openmp_enabled` and its body are the same predicate)"""
+    m = cx.m
     from ..flow import Flow as _Flow
 
     prop = m.func("context_cpu::ContextCpu.openmp_enabled")
@@ -244,7 +246,6 @@ def s10(cx):
     prop_body = norm(pr[0].value) if len(pr) == 1 else None
 
     def canon(txt):
-        # the property and its body are the same predicate
         if prop_body is not None:
             txt = txt.replace("self.openmp_enabled", f"({prop_body})") if txt != "self.openmp_enabled" else prop_body
         return txt
@@ -265,10 +266,30 @@ def s10(cx):
     flag_sites = omp_guards(ck, lambda n: isinstance(n, ast.Constant) and n.value == "-fopenmp")
     kc = m.func("context_cpu::KernelCpu.__call__")
     call_sites = omp_guards(kc, lambda n: isinstance(n, ast.Call) and norm(n.func).endswith("omp_set_num_threads"))
-    cx.recog(len(tgt_sites) == 2 and hdr_sites and flag_sites and call_sites, f, "OpenMP-dependent sites (target selection x2, omp.h, -fopenmp, omp_set_num_threads)")
+    cx.recog(hdr_sites and flag_sites and call_sites, f, "OpenMP-dependent sites (omp.h, -fopenmp, omp_set_num_threads)")
     ref_pred = {g for _, gs in hdr_sites + flag_sites for g in gs if g[1]}
     cx.recog(len(ref_pred) == 1, f, f"one positive OpenMP predicate guarding omp.h and -fopenmp (found {sorted(ref_pred)})")
     (ptxt, _), = ref_pred
+    return f, ptxt, tgt_sites, call_sites
+
+
+@rule("S11", ["C15", "C16"], "one predicate decides 'this is an OpenMP context' at the sites that are not evaluated: omp.h, -fopenmp, omp_set_num_threads")
+def s11(cx):
+    # A context for which the sites disagree is compiled / run with OpenMP but specialised for the other CPU target
+    # (seeded C16-b selected the target by the thread count); the target selection itself is decided by S11e
+    f, ptxt, tgt_sites, call_sites = _omp_sites(cx)
+    cx.ok(f, construct=f"omp.h and -fopenmp under `{ptxt}`", detail="one positive predicate guards the header and the compiler flag", sub="predicate")
+    for n, gs in call_sites:
+        cx.check((ptxt, True) in gs, n, construct=f"omp_set_num_threads under {[('' if p_ else 'not ') + t for t, p_ in gs]}", detail="thread count applied exactly in OpenMP contexts", bad_detail=f"omp_set_num_threads is not guarded by `{ptxt}`", sub="target")
+
+
+@rule("S11t", ["C15", "C16"], "diagnostic: the specialisation target is selected by two assignments guarded by the OpenMP predicate")
+def s11t(cx):
+    f, ptxt, tgt_sites, call_sites = _omp_sites(cx)
+    if len(tgt_sites) != 2:
+        # the target is selected in another form (a table, a conditional expression ...): decided by evaluation (S11e)
+        cx.note(f, detail="target selection is not written as two guarded assignments: decided by S11e")
+        return
     for n, gs in tgt_sites:
         want_pol = n.value.value == "cpu_openmp"
         mine = [g for g in gs]
@@ -276,5 +297,72 @@ def s10(cx):
         other = [g for g in mine if g[0] != ptxt]
         cx.check(ok and not other, n, construct=f"specialize_for = {n.value.value!r} under {[('' if p_ else 'not ') + t for t, p_ in mine]}", detail=f"selected by the same predicate `{ptxt}` that enables omp.h / -fopenmp / omp_set_num_threads",
                  bad_detail=f"the target is selected by {[('' if p_ else 'not ') + t for t, p_ in mine]} while OpenMP compilation is selected by `{ptxt}`: a context for which the two differ is built and run with OpenMP but specialised for the other CPU target (its //only_for_context lines and include files are those of the wrong target)", sub="target")
-    for n, gs in call_sites:
-        cx.check((ptxt, True) in gs, n, construct=f"omp_set_num_threads under {[('' if p_ else 'not ') + t for t, p_ in gs]}", detail="thread count applied exactly in OpenMP contexts", bad_detail=f"omp_set_num_threads is not guarded by `{ptxt}`", sub="target")
+
+
+@rule("S11e", ["C15", "C16"], "ContextCpu._build_sources evaluated for serial and OpenMP contexts: the specialisation target, the omp.h header and the context's own OpenMP predicate agree")
+def s11e(cx):
+    """`_build_sources` is interpreted with `self` a ContextCpu whose omp_num_threads is 0, 1, 4 or 'auto'; the class
+    sources and the concatenation are replaced by recorders.  Required for each: specialize_source is called once, for
+    cpu_openmp exactly when the context's own `openmp_enabled` holds, the omp.h include is among the headers exactly
+    then, and with specialize=False nothing is specialised (both results are the same text)."""
+    m = cx.m
+    from ..peval import Interp, Obj, PyExc
+
+    f = m.func("context_cpu::ContextCpu._build_sources")
+    m.func("context_cpu::ContextCpu.openmp_enabled")
+    n = 0
+    for omp in (0, 1, 4, "auto"):
+        for specialize in (True, False):
+            I = Interp(m)
+            C = I.global_lookup("context_cpu", "ContextCpu")
+            selfv = Obj("instance", {"omp_num_threads": omp}, cls=C)
+            rec = {"spec": [], "sources": None}
+
+            def h_cls(interp, args, kwargs):
+                return []
+
+            def h_cat(interp, args, kwargs, rec=rec):
+                srcs = list(interp.iterate(args[0]))
+                rec["sources"] = srcs
+                return ("\n".join(x for x in srcs if isinstance(x, str)), [])
+
+            def h_spec(interp, args, kwargs, rec=rec):
+                rec["spec"].append(kwargs.get("specialize_for", args[1] if len(args) > 1 else None))
+                return "<specialised>" + str(args[0])
+
+            I.call_hooks["sources_from_classes"] = h_cls
+            I.call_hooks["_concatenate_sources"] = h_cat
+            I.call_hooks["specialize_source"] = h_spec
+            out = {}
+
+            def thunk():
+                out["enabled"] = I.getattr(selfv, "openmp_enabled")
+                out["res"] = I.call(I.getattr(selfv, "_build_sources"), [], {"classes": [], "extra_headers": [], "specialize": specialize, "sources": ["int x;"]})
+
+            res = I.explore(thunk, max_paths=4)
+            label = f"ContextCpu(omp_num_threads={omp!r})._build_sources(specialize={specialize})"
+            if len(res) != 1 or res[0]["exc"] is not None:
+                e = res[0]["exc"]
+                if e is not None and isinstance(e, PyExc) and e.etype not in ("AttributeError", "NameError", "TypeError", "KeyError"):
+                    cx.bad(f, construct=label, detail=f"raises {e.etype}: {e.msg}", sub="eval")
+                    continue
+                raise AnalysisError(f"[S11e] {label} cannot be evaluated: {e.etype + ': ' + str(e.msg) if e else res[0]['conds']}")
+            en = out["enabled"]
+            cx.need(isinstance(en, bool), f"[S11e] openmp_enabled evaluates to {en!r}")
+            n += 1
+            hdr = any(isinstance(x, str) and "omp.h" in x for x in (rec["sources"] or []))
+            want = ["cpu_openmp" if en else "cpu_serial"] if specialize else []
+            probs = []
+            if rec["spec"] != want:
+                probs.append(f"specialised for {rec['spec']}, the context is {'an OpenMP' if en else 'a serial'} one (expected {want})")
+            if hdr != en:
+                probs.append(f"omp.h is {'included' if hdr else 'not included'} although openmp_enabled is {en}")
+            r = out["res"]
+            if not (isinstance(r, tuple) and len(r) == 2):
+                probs.append(f"returns {r!r}, not (source, specialised source)")
+            elif specialize and not (isinstance(r[1], str) and r[1].startswith("<specialised>")):
+                probs.append("the second result is not what specialize_source returned")
+            elif not specialize and r[0] != r[1]:
+                probs.append("specialize=False: the two results differ")
+            cx.check(not probs, f, construct=label, detail=f"target {want}, omp.h {'in' if en else 'ex'}cluded: all follow the context's own predicate", bad_detail="; ".join(probs), sub="target")
+    cx.need(n == 8, f"[S11e] only {n} of 8 context x specialize cases evaluated")
